@@ -123,6 +123,9 @@ def run(F, R):
         if _lf:
             _c3.e9_can_pop(F, R, M, byrole['can_pop'][0], _lf, rule='N7')
     _c3.e8_helper_token(F, R, M, roles, rule='N8')
+    # N12: "blocking helpers return as soon as the device has served the request" - and not before: the wait does not depend on the
+    # notification decision (C03.E17)
+    guard(R, 'N12', 'helper-waits', lambda: _c3.e17_helper_waits(F, R, M, roles, rule='N12'))
     # N9: "the device was told": each transport's notify writes the index of the queue that has new buffers (into the
     # notification register / that queue's slot of the notification window) - C10.M2 / C11.W3 notify traces
     transport_registration_rule(F, R, 'N9', op='notify')
